@@ -245,8 +245,6 @@ def run(pid, tier, args):
             gd = os.path.join(wd, "gen07")
             os.makedirs(gd)
             gcases = [c for c in gen_lex.family(vlib.seed(), 0 if tier == "quick" else 40, supported_only=True)]
-            if tier == "quick":
-                gcases = [c for c in gcases if c["id"] in ("G0", "G8", "G23", "G24", "G26", "G27")]
             graw = os.path.join(gd, "raw.json")
             gen_lex.write(graw, alpha, gcases)
             vlib.vh(vhbin, ["lex-prep", graw, os.path.join(gd, "cases.json")])
